@@ -117,6 +117,7 @@ type groupResult struct {
 	Detail    string   `json:"detail,omitempty"`
 	Semantics string   `json:"semantics,omitempty"`
 	obls      []*Obligation
+	frameFn   *ssa.Function
 }
 
 type knownFinding struct {
